@@ -105,6 +105,35 @@ func mapTris(ts []g.Tri, f func(C3) C3) []g.Tri {
 	return res
 }
 
+// ownSolid3 is a union of reference shapes offered to the library's meshers
+// as input; it shares no code with the primitives under test.
+type ownSolid3 struct{ refs []g.RefShape3 }
+
+func (o ownSolid3) Min() C3 {
+	mn, _ := o.refs[0].Bounds()
+	for _, r := range o.refs[1:] {
+		lo, _ := r.Bounds()
+		mn = g.V3(math.Min(mn.X, lo.X), math.Min(mn.Y, lo.Y), math.Min(mn.Z, lo.Z))
+	}
+	return g.Sub3(mn, g.V3(1e-6, 1e-6, 1e-6))
+}
+func (o ownSolid3) Max() C3 {
+	_, mx := o.refs[0].Bounds()
+	for _, r := range o.refs[1:] {
+		_, hi := r.Bounds()
+		mx = g.V3(math.Max(mx.X, hi.X), math.Max(mx.Y, hi.Y), math.Max(mx.Z, hi.Z))
+	}
+	return g.Add3(mx, g.V3(1e-6, 1e-6, 1e-6))
+}
+func (o ownSolid3) Contains(p C3) bool {
+	for _, r := range o.refs {
+		if r.Eval(p).SD >= 0 {
+			return true
+		}
+	}
+	return false
+}
+
 type meshCase3 struct {
 	kind   string
 	tris   []g.Tri
@@ -139,12 +168,14 @@ func genMesh3(rng *rand.Rand, thorough bool) meshCase3 {
 	case 4: // library icosphere (input only; orientation certified below)
 		n := 1 + rng.Intn(5*big)
 		mc.kind, mc.tris = "icosphere", vlib.Tris(model3d.NewMeshIcosphere(C3{}, 1, n))
-	case 5: // marching cubes mesh of a smooth union (input only)
-		s1 := &model3d.Sphere{Center: g.V3(0.3*rng.Float64(), 0, 0), Radius: 0.6 + 0.3*rng.Float64()}
-		s2 := &model3d.Sphere{Center: g.V3(0.8, 0.5*rng.Float64(), 0.3*rng.Float64()), Radius: 0.4 + 0.3*rng.Float64()}
-		var solid model3d.Solid = model3d.JoinedSolid{s1, s2}
+	case 5: // marching cubes mesh of a smooth solid (input only; the solid is the monitor's own, not a library primitive)
+		var solid model3d.Solid
 		if rng.Intn(2) == 0 {
-			solid = &model3d.Torus{Center: C3{}, Axis: g.V3(0, 0, 1), OuterRadius: 1, InnerRadius: 0.25 + 0.3*rng.Float64()}
+			solid = ownSolid3{refs: []g.RefShape3{
+				g.RefSphere{C: g.V3(0.3*rng.Float64(), 0, 0), R: 0.6 + 0.3*rng.Float64()},
+				g.RefSphere{C: g.V3(0.8, 0.5*rng.Float64(), 0.3*rng.Float64()), R: 0.4 + 0.3*rng.Float64()}}}
+		} else {
+			solid = ownSolid3{refs: []g.RefShape3{g.RefTorus{Axis: g.V3(0, 0, 1), Ro: 1, Ri: 0.25 + 0.3*rng.Float64()}}}
 		}
 		delta := 0.11 + 0.2*rng.Float64()
 		if thorough {
